@@ -105,6 +105,15 @@ CLAIMS = {
         note="Trusted: the Lame-coefficient form of the operators and this library's coordinate orderings (cross-checked against its own "
              "transformation table by C11/T6). Behaviour-preserving algebraic rewrites do not fire.",
         technique="formal derivation + exact normal form of rational functions with sin^2+cos^2=1 over formulas read from the AST", ref="DESIGN.md §2 C12"),
+    "C13": dict(
+        text="Only the structural clause: the six circulation/flux routines are evaluated abstractly with a generic field value and generic "
+             "parametrisations (undefined functions of t / (u, v)); every sympy.integrate call is captured and its integrand and limits are "
+             "decided, in exact normal form, to be the differential forms Stokes', Green's and Gauss' theorems are about (A.dr, A.(r_u x r_v), "
+             "flux of curl over the same surface, A_x y' - A_y x', div F |r_u x r_v|, div F h1h2h3 with each variable paired with its own "
+             "limits). A wrong integrand, normal orientation, area/volume element or limit pairing breaks the theorems for every field.",
+        note="NOT decided: that sympy.integrate/simplify evaluate the integrals correctly, i.e. the numerical agreement of the two sides; the "
+             "theorems themselves are trusted mathematics; curl/div correctness is C12.",
+        technique="abstract evaluation of the integral-building code over generic fields/parametrisations + exact normal form of captured integrands", ref="DESIGN.md §2 C13"),
     "C14": dict(
         text="The six product-rewrite rules, the repeated-operand shortcuts and the mixed-product expansion are decided as polynomial "
              "identities in the components of generic real 3-vectors (so for every assignment), the permutation-sign discipline of the three "
@@ -147,7 +156,6 @@ CLAIMS = {
 }
 
 NA_REASONS = {
-    "C13": "agreement of two sympy.integrate-based computations for all fields/regions: no structural clause carries it (DESIGN.md §4)",
     "C17": "bracket/sign logic over an unbounded space of run-time expression shapes; needs a parse round-trip, i.e. execution (DESIGN.md §4)",
 }
 
